@@ -1,10 +1,14 @@
 """Trusted library contracts for the TLS / certificate properties C13-C17.
 
-* str.split(sep) on names built from separator-free labels: the structural split of libx_dns (assume_sep_free) is used.
 * list methods append / pop(0) / pop() on a symbolic-LENGTH sequence (vc.sym_seq) that the scenario marked as a
   mutable list (`seq.mutable_list = True`): in-place update of the sequence term (Python list reference semantics).
-* cryptography.x509 general names: value objects (DNSName/IPAddress/...) are interpreted from their real source; the
-  GeneralNames sequence methods (generated by a closure in cryptography) get explicit contracts.
+* record-header predicates (net.tls.starts_like_tls_record / starts_like_dtls_record) as uninterpreted predicates with the
+  REAL predicates as oracles (replayable counter-models / conformance samples); used by props/C13.py.
+* datetime.datetime.now(): a symbolic instant (whole days) as props.tlsstub.SymTime; dict.fromkeys: ordered de-duplication.
+* str.encode("idna"): result is pure ASCII (on top of the uninterpreted codec model of the other extension modules).
+* ipaddress.v4_int_to_packed / v6_int_to_packed (`.packed`): exact big-endian bytes.
+(str.split on dot-free labels uses the structural split models of libx_dns / libx_addons; cryptography's general-name and
+extension classes are interpreted from their real source.)
 """
 from __future__ import annotations
 
